@@ -135,6 +135,17 @@ func c08Pool() *c08Pools {
 				return lib.GenFile(rng, lib.FileGenOpts{FileType: ft, MaxPerSlot: 4, Subset: 3})
 			})
 		}
+		// Files with several slices of more than 1024 messages (an hour-long activity, a long
+		// course, a day of monitoring): whatever Encode does differently for long slices must
+		// still give identical bytes every time.
+		for k := uint64(0); k < 4; k++ {
+			k := k
+			c08P.files = append(c08P.files, func() *fit.File {
+				rng := lib.NewRand("C08.pool.bigfiles", k)
+				ft := []byte{4, 6, 32, 4}[k]
+				return lib.GenFile(rng, lib.FileGenOpts{FileType: ft, MaxPerSlot: 4, Subset: 3, Phased: true, PhasedMin: 1024, PhasedSpan: 400})
+			})
+		}
 	})
 	return &c08P
 }
